@@ -311,7 +311,23 @@ def _check_one(pc, insts, goal, timeout_ms, use_cvc5, cross=False):
                 s.add(i)
         s.add(z3.Not(goal))
         if guarded_check(s, timeout_ms) == z3.sat and model_ok(s.model(), qf + [z3.Not(goal)]):
-            return "failed", "z3(candidate: quantified hypotheses dropped)", s.model(), s.to_smt2(), h
+            mdl = s.model()
+            # does the candidate also satisfy the quantified hypotheses?  (z3 can often evaluate a quantified formula under a
+            # complete model.)  If every one evaluates to true the model is a genuine model of the whole query: a definite
+            # refutation.  Otherwise it stays a candidate: reported only if the native replay reproduces it.
+            definite = True
+            for p_ in pc:
+                if _has_quant(p_):
+                    try:
+                        v_ = mdl.eval(p_, model_completion=True)
+                    except z3.Z3Exception:
+                        v_ = None
+                    if v_ is None or not z3.is_true(v_):
+                        definite = False
+                        break
+            be = "z3(model of the quantifier-free part, quantified hypotheses hold in it)" if definite else \
+                "z3(candidate: quantified hypotheses dropped)"
+            return "failed", be, mdl, s.to_smt2(), h
     return "unknown", "z3" + ("+cvc5" if use_cvc5 else ""), None, smt2, h
 
 
